@@ -39,7 +39,7 @@ def stream_eq(a, b):
 def run_task(prog, tid, params, tier):
     tname, part = params['type'], params['part']
     shapes = [{'rest': 2}] if tname == 'NULL' else VG.shapes_for(S.BY_NAME[tname], 'quick')
-    shapes = [s for s in shapes if not s.get('skip_eq')][:4 if tier == 'quick' else 8]
+    shapes = VG.pick([s for s in shapes if not s.get('skip_eq')], 4 if tier == 'quick' else 8)
     f_write = fn(prog, 'ResourceRecord', 'write_to')
     f_parse = fn(prog, 'ResourceRecord', 'parse')
     f_clone = fn(prog, 'ResourceRecord', 'clone', 'Clone')
